@@ -92,8 +92,18 @@ def isinstance_static(R, t, names):
     return False
 
 
+def _flatten_bitor(n):
+    if isinstance(n, ast.BinOp) and isinstance(n.op, ast.BitOr):
+        return _flatten_bitor(n.left) + _flatten_bitor(n.right)
+    return [n]
+
+
 def isinstance_cond(R, v, tnode, frame):
-    tv = R.ev(tnode, frame)
+    parts = _flatten_bitor(tnode)
+    if len(parts) > 1:   # isinstance(x, A | B | C)
+        tv = const(tuple(R.ev(p, frame) for p in parts))
+    else:
+        tv = R.ev(tnode, frame)
     names = []
 
     def coll(x):
@@ -106,6 +116,11 @@ def isinstance_cond(R, v, tnode, frame):
             raise Unsupported("isinstance type argument")
 
     coll(tv)
+    ufs = R.ctx.c.config.get("isinstance_uf", {})
+    if v.t.kind == "opaque" and v.t.name in ufs:
+        # membership of an arbitrary python value in a class (set) is an uninterpreted predicate of the value
+        tag = "isa_" + "_".join(sorted(n.split(".")[-1] for n in names))
+        return R.ctx.uf_pred(R, tag, [v])
     if v.t.kind == "union":
         return z3.Or([v.t.is_(v.z, m) for m in v.t.members if isinstance_static(R, m, names)] or [z3.BoolVal(False)])
     if v.is_const:
@@ -257,11 +272,54 @@ def m_callable(R, args, kw, node):
     return mk_bool(R.ctx.is_callable_type(v.t))
 
 
+def split_ite(R, v, label):
+    """exec mode: a string that is an if-then-else of other strings is decided here, so that the
+    branches (often constants) can be handled exactly"""
+    if R.pure or v.t.kind != "str":
+        return v
+    for _ in range(6):
+        z = zsimp(v.z)
+        if z3.is_app(z) and z.decl().kind() == z3.Z3_OP_ITE:
+            v = V(T.Str, z.arg(1) if R.decide(z.arg(0), label + "/case") else z.arg(2))
+        else:
+            return V(T.Str, z)
+    return v
+
+
+def _str_of_int_arg(R, z):
+    """the integer i when z is (syntactically) str(i) as built by the model of str()"""
+    tbl = R.ctx.__dict__.setdefault("str_of_int", {})
+    for cand in (z, zsimp(z)):
+        hit = tbl.get(cand.get_id())
+        if hit is not None and hit[0].eq(cand):
+            return hit[1]
+    zs = zsimp(z)
+    for term, i_ in tbl.values():
+        if zsimp(term).eq(zs):
+            return i_
+    return None
+
+
 @builtin("int")
 def m_int(R, args, kw, node):
     if not args:
         return mk_int(0)
     v = args[0]
+    if v.t.kind == "str":
+        v = split_ite(R, v, lab(R, node, "int"))
+        i_ = _str_of_int_arg(R, v.z)
+        if i_ is not None:
+            return mk_int(i_)  # int(str(i)) == i
+        zs = zsimp(v.z)
+        if z3.is_string_value(zs):
+            from .modelval import z3str
+
+            try:
+                return mk_int(int(z3str(zs)))
+            except ValueError:
+                if R.pure:
+                    raise EngineError("int() of a non-numeral constant in a clause")
+                raise PyRaise(Exc("ValueError", tag=lab(R, node, "int")))
     if v.t.kind == "union":
         v = R.project(v, lambda t: t.kind in ("int", "bool", "str", "real"), lab(R, node, "int"))
     if v.t.kind in ("int", "bool"):
@@ -302,13 +360,26 @@ def m_str(R, args, kw, node):
         return mk_str("")
     v = args[0]
     is_str_call = isinstance(node.func, ast.Name) and node.func.id == "str"
-    if v.t.kind == "union" and is_str_call and v.t.index(T.Str) is not None:
-        other = R.ctx.uf_apply(R, "str_of", [R.data(v)], T.Str)
-        return V(T.Str, z3.If(v.t.is_(v.z, T.Str), v.t.proj(v.z, T.Str), other.z))
+    if v.t.kind == "union" and is_str_call:
+        # member-wise: str / int / bool have exact models, anything else an uninterpreted rendering
+        res = R.ctx.uf_apply(R, "str_of", [R.data(v)], T.Str).z
+        for m_ in v.t.members:
+            if m_.kind in ("str", "int", "bool", "none"):
+                sub = m_str(R, [V(m_, v.t.proj(v.z, m_)) if m_.kind != "none" else mk_none()], {}, node)
+                res = z3.If(v.t.is_(v.z, m_), sub.z, res)
+        return V(T.Str, res)
+    if v.t.kind == "bool" and is_str_call:
+        return V(T.Str, z3.If(v.z, z3.StringVal("True"), z3.StringVal("False")))
+    if v.t.kind == "none" and is_str_call:
+        return mk_str("None")
     if v.t.kind == "str" and is_str_call:
         return v
     if v.t.kind == "int":
-        return V(T.Str, z3.If(v.z >= 0, z3.IntToStr(v.z), z3.Concat(z3.StringVal("-"), z3.IntToStr(-v.z))))
+        res = V(T.Str, z3.If(v.z >= 0, z3.IntToStr(v.z), z3.Concat(z3.StringVal("-"), z3.IntToStr(-v.z))))
+        tbl = R.ctx.__dict__.setdefault("str_of_int", {})
+        for cand in (res.z, zsimp(res.z)):
+            tbl[cand.get_id()] = (cand, v.z)
+        return res
     return R.ctx.uf_apply(R, "str_of", [R.data(v)] if not v.is_const else [mk_str(repr(v.z))], T.Str)
 
 
@@ -483,7 +554,40 @@ def m_dict(R, args, kw, node):
         if hint is None or hint.kind != "dict":
             raise Unsupported("dict() without declared local type")
         return new_dict(R, hint)
+    if len(args) == 1 and not kw and not args[0].is_const:
+        a = args[0]
+        if a.t.kind == "obj":
+            hook = R.ctx.c.config.get("dict_of", {}).get(a.t.cls)
+            if hook is None:
+                raise Unsupported("dict(%s) without a dict_of model" % a.t.cls)
+            return hook(R, a, node)
+        if a.t.kind in ("dict", "vmap"):
+            m = R.content(a, R.old_heap) if a.t.kind == "dict" else a
+            dt = T.Dict(m.t.k, m.t.v, ordered=True)
+            return dict_from_parts(R, dt, m.t.has(m.z), m.t.val(m.z), "dcopy")
     raise Unsupported("dict(...)")
+
+
+def dict_from_parts(R, dt, has, vals, base):
+    """a new dict with the given presence / value arrays; insertion order is a fresh well-formed ghost"""
+    r = R.ctx.alloc_symbolic(R, dt, fresh_name(base))
+    mt = dt.content()
+    R.set_content(r, V(mt, mt.mk(has, vals)))
+    g = R.heap[r.z].ghost
+    if g and "keys" in g:
+        # alloc_symbolic assumed well-formedness w.r.t. the symbolic content it created: restate it for these arrays
+        R.ctx.assume_keys_wf(R, V(mt, mt.mk(has, vals)), g["keys"])
+    return r
+
+
+def merged_arrays(R, kt, vt, has, vals, ohas, ovals, base):
+    """(has', vals') of a mapping updated with another one; pointwise axioms with explicit patterns"""
+    has2 = z3.Const(fresh_name(base + ".has"), z3.ArraySort(kt.sort(), z3.BoolSort()))
+    vals2 = z3.Const(fresh_name(base + ".val"), z3.ArraySort(kt.sort(), vt.sort()))
+    k = z3.Const(fresh_name("uk"), kt.sort())
+    R.assume(z3.ForAll([k], z3.Select(has2, k) == z3.Or(z3.Select(has, k), z3.Select(ohas, k)), patterns=[z3.Select(has2, k)]))
+    R.assume(z3.ForAll([k], z3.Select(vals2, k) == z3.If(z3.Select(ohas, k), z3.Select(ovals, k), z3.Select(vals, k)), patterns=[z3.Select(vals2, k)]))
+    return has2, vals2
 
 
 def new_dict(R, dt):
@@ -866,6 +970,54 @@ def d_pop(R, recv, args, kw, node):
     return args[1]
 
 
+@method("dict", "clear")
+def d_clear(R, recv, args, kw, node):
+    m, has, vals = _dict_parts(R, recv)
+    g = R.cell_ghost(recv.z)
+    if g is not None and "size" in g:
+        g = dict(g)
+        g["size"] = z3.IntVal(0)
+        if "keys" in g:
+            g["keys"] = V(g["keys"].t, z3.Empty(g["keys"].t.sort()))
+        R.heap[recv.z].ghost = g
+    R.set_content(recv, V(m.t, m.t.mk(z3.K(m.t.k.sort(), z3.BoolVal(False)), vals)))
+    return mk_none()
+
+
+@method("dict", "update")
+def d_update(R, recv, args, kw, node):
+    if len(args) != 1 or kw:
+        raise Unsupported("dict.update form")
+    m, has, vals = _dict_parts(R, recv)
+    o = args[0]
+    if o.t.kind == "dict":
+        om = R.content(o)
+    elif o.t.kind == "vmap":
+        om = o
+    else:
+        raise Unsupported("dict.update(%s)" % o.t.kind)
+    if om.t.k != m.t.k or om.t.v != m.t.v:
+        raise Unsupported("dict.update with a differently typed mapping")
+    has2, vals2 = merged_arrays(R, m.t.k, m.t.v, has, vals, om.t.has(om.z), om.t.val(om.z), "upd")
+    newc = V(m.t, m.t.mk(has2, vals2))
+    g = R.cell_ghost(recv.z)
+    if g is not None and "size" in g:
+        g = dict(g)
+        sz = z3.Int(fresh_name("upd.size"))
+        R.assume(sz >= g["size"])
+        g["size"] = sz
+        if "keys" in g:
+            ks = g["keys"]
+            ks2 = V(ks.t, z3.Const(fresh_name("upd.keys"), ks.t.sort()))
+            R.ctx.assume_keys_wf(R, newc, ks2)
+            R.assume(z3.Length(ks2.z) == sz)
+            R.assume(z3.PrefixOf(ks.z, ks2.z))  # existing keys keep their positions; new ones are appended
+            g["keys"] = ks2
+        R.heap[recv.z].ghost = g
+    R.set_content(recv, newc)
+    return mk_none()
+
+
 @method(("dict", "vmap"), "keys")
 def d_keys(R, recv, args, kw, node):
     return recv
@@ -971,7 +1123,22 @@ def str_replace(R, recv, args, kw, node):
 @method("str", "lower", "upper", "casefold", "strip", "lstrip", "rstrip", "title", "capitalize", "expandtabs")
 def str_uf(R, recv, args, kw, node):
     name = node.func.attr
+    recv = split_ite(R, recv, lab(R, node, name))
+    zr = zsimp(recv.z)
+    if z3.is_string_value(zr) and all(a.t.kind == "str" and z3.is_string_value(zsimp(a.z)) for a in args):
+        # concrete receiver and arguments: constant-folded by CPython itself
+        from .modelval import z3str
+
+        return mk_str(getattr(z3str(zr), name)(*[z3str(zsimp(a.z)) for a in args]))
     res = R.ctx.uf_apply(R, "str." + name, [recv] + [R.data(a) for a in args], T.Str)
+    if not args:
+        # instances of the function on constants the contract cares about (concrete evaluation by CPython)
+        for c_ in R.ctx.c.config.get("fold_strings", ()):
+            R.assume(z3.Implies(recv.z == z3.StringVal(c_), res.z == z3.StringVal(getattr(c_, name)())))
+        if name in ("lower", "upper", "casefold"):
+            # decimal numerals (with an optional minus sign) contain no cased characters
+            neg = z3.And(z3.PrefixOf(z3.StringVal("-"), recv.z), z3.StrToInt(z3.SubString(recv.z, 1, z3.Length(recv.z) - 1)) >= 0)
+            R.assume(z3.Implies(z3.Or(z3.StrToInt(recv.z) >= 0, neg), res.z == recv.z))
     if name in ("strip", "lstrip", "rstrip"):
         R.assume(z3.Length(res.z) <= z3.Length(recv.z))
         if name == "rstrip":
